@@ -8,6 +8,8 @@
 import Y0.Lemmas.TrsoInv
 import Y0.Lemmas.IdTotal
 import Y0.Lemmas.LatentTopo
+import Y0.Lemmas.IdRank
+import Y0.Lemmas.TrsoSep
 import Y0.Props.C14
 import Y0.Props.C06Transport
 
@@ -98,7 +100,8 @@ theorem lookup_mapM {β} {f : Pop × β → Except Err (Pop × β)} (hkey : ∀ 
       have : ¬ a'.1 = d := by rw [hk]; exact had
       simpa [List.find?_cons, this] using hb'
 
-theorem mapM_mem {α β} {f : α → Except Err β} {l : List α} (h : ∀ a ∈ l, ∃ b, f a = .ok b) : ∃ r, l.mapM f = .ok r :=
+theorem mapM_mem {α β : Type} {f : α → Except Err β} {l : List α} (h : ∀ a ∈ l, ∃ b, f a = .ok b) :
+    ∃ r, l.mapM f = .ok r :=
   IdAux.mapM_ok_of_forall f l h
 
 /-! ### small list facts -/
@@ -130,9 +133,9 @@ theorem transportNodes_nil_of_noT {G : MG Name} (h : ∀ v ∈ G.nodes, isTnode 
 
 /-! ### sub-graphs keep what the invariant needs -/
 
-theorem ranked_of_acyclic {G : MG Name} (hG : G.WF) (h : G.Acyclic) : G.Ranked := acyclic_ranked hG h
+theorem ranked_of_acyclic {G : MG Name} (hG : G.WF) (h : G.Acyclic) : G.Ranked := MG.acyclic_ranked hG h
 
-theorem length_subgraph_le {G : MG Name} (hG : G.WF) (S : List Name) (hS : ∀ s ∈ S, s ∈ G.nodes) :
+theorem length_subgraph_le {G : MG Name} (S : List Name) (hS : ∀ s ∈ S, s ∈ G.nodes) :
     (G.subgraph S).nodes.length ≤ G.nodes.length := by
   have hnd : (G.subgraph S).nodes.Nodup := (wf_subgraph G S).nodup
   have hsub : (G.subgraph S).nodes ⊆ G.nodes := by
@@ -141,11 +144,63 @@ theorem length_subgraph_le {G : MG Name} (hG : G.WF) (S : List Name) (hS : ∀ s
     exact hS v this
   exact (List.subperm_of_subset hnd hsub).length_le
 
-theorem length_subgraph_lt {G : MG Name} (hG : G.WF) (S : List Name) (hS : ∀ s ∈ S, s ∈ G.nodes) {w : Name}
+theorem length_subgraph_lt {G : MG Name} (S : List Name) (hS : ∀ s ∈ S, s ∈ G.nodes) {w : Name}
     (hw : w ∈ G.nodes) (hwS : w ∉ S) : (G.subgraph S).nodes.length < G.nodes.length := by
   apply length_lt_of_subset (wf_subgraph G S).nodup _ hw
   · intro h; exact hwS ((mem_nodes_subgraph G S w).1 h)
   · intro v hv; exact hS v ((mem_nodes_subgraph G S v).1 hv)
+
+/-! ### the invariant of a run that is still in the target domain -/
+
+/-- the computation succeeds -/
+def NoErr {α} (x : Except Err α) : Prop := ∃ a, x = .ok a
+
+/-- Invariant of the queries met while TRSO runs in the TARGET domain (before any line 6); `G` is the current graph,
+`M` a bound on the size of every graph of the query.
+`surr`: either line 10 already cleared the experiments, or every source domain has a (possibly empty) declared
+experiment set (`lookup` succeeds).  `NoSurr` below adds "all of them are empty". -/
+structure TInv (M : Nat) (q : Query) (G : MG Name) : Prop where
+  look : lookup q.graphs q.domain = .ok G
+  dom : q.domain = targetPop
+  act : q.active = []
+  wf : ∀ p ∈ q.graphs, p.2.WF
+  rk : ∀ p ∈ q.graphs, p.2.Ranked
+  noT : ∀ v ∈ G.nodes, isTnode v = false
+  Yin : ∀ p ∈ q.graphs, ∀ y ∈ q.Y, y ∈ p.2.nodes
+  Yne : q.Y ≠ []
+  Xin : ∀ x ∈ q.X, x ∈ G.nodes
+  XY : ∀ y ∈ q.Y, y ∉ q.X
+  sub : ∀ p ∈ q.graphs, (∀ v ∈ G.nodes, v ∈ p.2.nodes) ∧ (∀ e ∈ G.di, e ∈ p.2.di)
+  size : ∀ p ∈ q.graphs, p.2.nodes.length ≤ M
+  keys : q.surr = [] ∨ ∀ p ∈ q.graphs, p.1 ≠ targetPop → ∃ Z, lookup q.surr p.1 = .ok Z
+
+/-- no source domain declares an experiment -/
+def NoSurr (q : Query) : Prop := ∀ p ∈ q.surr, p.2 = []
+
+/-- termination measure of the target phase: (number of nodes, number of nodes outside `X`), lexicographic -/
+def mu (M : Nat) (q : Query) (G : MG Name) : Nat := G.nodes.length * (M + 2) + (diff' G.nodes q.X).length
+
+theorem TInv.cur {M q G} (h : TInv M q G) : (q.domain, G) ∈ q.graphs := lookup_key h.look
+theorem TInv.wfG {M q G} (h : TInv M q G) : G.WF := h.wf _ h.cur
+theorem TInv.rkG {M q G} (h : TInv M q G) : G.Ranked := h.rk _ h.cur
+theorem TInv.YinG {M q G} (h : TInv M q G) : ∀ y ∈ q.Y, y ∈ G.nodes := h.Yin _ h.cur
+theorem TInv.sizeG {M q G} (h : TInv M q G) : G.nodes.length ≤ M := h.size _ h.cur
+
+theorem diff_length_le (l m : List Name) : (diff' l m).length ≤ l.length := List.length_filter_le _ _
+
+/-- the measure drops when the current graph loses a node -/
+theorem mu_lt_of_nodes {M : Nat} {q q' : Query} {G G' : MG Name} (hG : G.nodes.length ≤ M)
+    (h : G'.nodes.length < G.nodes.length) : mu M q' G' < mu M q G := by
+  unfold mu
+  have h1 := diff_length_le G'.nodes q'.X
+  have h2 : (G'.nodes.length + 1) * (M + 2) ≤ G.nodes.length * (M + 2) := Nat.mul_le_mul_right _ h
+  have : (G'.nodes.length + 1) * (M + 2) = G'.nodes.length * (M + 2) + (M + 2) := by ring
+  omega
+
+/-- the measure drops when the graph stays and `X` gains a node of the graph -/
+theorem mu_lt_of_X {M : Nat} {q q' : Query} {G : MG Name}
+    (h : (diff' G.nodes q'.X).length < (diff' G.nodes q.X).length) : mu M q' G < mu M q G := by
+  unfold mu; omega
 
 end Trso
 end Y0
